@@ -190,6 +190,12 @@ func runOne(sc clientx.Sc, c Case, x *explore.Ctx, hooks bool) clientx.Run {
 }
 
 func run(tier string, shard, nsh int, res *ev.Result) {
+	if shard == 0 {
+		nc := sequenceCheck(res)
+		res.Add("sequence_calls", nc)
+		res.Add("evaluations", nc)
+		res.Axis("two calls on one client with hooks (first: ok / exception reply / I/O error with data)", "4 client kinds x 3", nc/2)
+	}
 	thorough := tier == "thorough"
 	scs := scenarios(thorough)
 	var execs, points, nontrivial int64
@@ -270,6 +276,10 @@ func run(tier string, shard, nsh int, res *ev.Result) {
 }
 
 func replay(check string, raw json.RawMessage, res *ev.Result) {
+	if check == "sequence" {
+		sequenceCheck(res)
+		return
+	}
 	var c Case
 	json.Unmarshal(raw, &c)
 	for _, sc := range scenarios(true) {
